@@ -71,7 +71,8 @@ def run_check(modname: str, tier: str, seed: int, workers: int = 0) -> int:
     else:
         ctx = mp.get_context('fork')
         with ctx.Pool(workers, initializer=_init_worker) as pool:
-            for out in pool.imap_unordered(_worker, jobs, chunksize=1):
+            chunk = max(1, min(16, n_scen // (workers * 16)))
+            for out in pool.imap_unordered(_worker, jobs, chunksize=chunk):
                 results.append(out)
     # deterministic merge order
     results.sort(key=lambda r: json.dumps(r.get('params'), sort_keys=True, default=repr))
